@@ -1,5 +1,6 @@
 import Serif.Wire
 import Serif.Model.Csv
+import Serif.Model.CsvLex
 open Lean Serif.Wire
 
 namespace Serif.Drive.C19
@@ -44,12 +45,35 @@ def ofModel (t : List (Column PV)) : Json :=
               ("cols", ofList (fun c => ofList ofPV c.data) t),
               ("dtypes", ofList (fun c => ofDType (colDType (fun v => Tag.ofCode v.1) c.data)) t)]
 
-/-- family `read`: records (as csv.reader produced them on the same text) ↦ table -/
+/-- the lexer model on the lines the file object delivered; `none` = the model raises `csv.Error` -/
+def lexModel (c : Json) : P (Option (List (List String))) := do
+  let lines ← listF asStr c "lines"
+  let delim ← strF c "delim"
+  match delim.toList with
+  | [d] =>
+    match CsvLex.parseLines d (lines.map String.toList) with
+    | .ok recs => return some (recs.map (·.map String.ofList))
+    | .error _ => return none
+  | _ => .error s!"delimiter must be one character, got {delim}"
+
+/-- family `read`: records (as csv.reader produced them on the same text) ↦ table;
+    the records themselves must be what the lexer model reads from the same lines (else the *model* of `csv.reader` is wrong: a
+    harness error, not a verdict on the code).
+    family `lex`: texts `csv.reader` rejects — the lexer model must reject them too -/
 def handle (fam : String) (c impl : Json) : P Json := do
   match fam with
+  | "lex" =>
+    match ← lexModel c with
+    | none => return verdict true "" (Json.str "csv.Error")
+    | some recs => .error s!"csv.reader rejects this text but the lexer model reads {recs}"
   | "read" =>
     let hh ← boolF c "has_header"
     let recs ← listF (asList asCell) c "records"
+    match ← lexModel c with
+    | none => .error "the lexer model rejects a text csv.reader accepts"
+    | some lrecs =>
+      if lrecs != recs.map (·.map (·.raw)) then
+        throw s!"the lexer model reads {lrecs} where csv.reader reads {recs.map (·.map (·.raw))}"
     let model := readCsv oracle hh recs
     let mj := ofModel model
     match impl.getObjVal? "err" with
